@@ -342,11 +342,18 @@ def c11(ctx):
                             ops.append(['add', A + '/Manifest', line.encode(), t_prev - 50])
                             stats['foreign_manifest_with_duplicate'] = stats.get('foreign_manifest_with_duplicate', 0) + 1
                     sizes = {p: os.path.getsize(os.path.join(a, p)) for p in live if os.path.exists(os.path.join(a, p))}
+                    before = {p: open(os.path.join(a, p), 'rb').read() for p in sizes}
                     # a file modified during the previous scan counts as modified at (previous start + 1 s)
                     ok = premise_ok(([['same', injected[0], 0, t_prev + 1]] if injected and injected[0] in sizes else []) + ops, t_prev, sizes)
                     injected = None
                     for x in (a, b):
                         apply_history(x, ops)
+                    # ... judged on what the operations really left behind as well: a file whose content differs, that has its recorded size again
+                    # (deleted, added anew and modified to the old length) and is not later than the previous TIMESTAMP is outside the premise
+                    for p0, old0 in before.items():
+                        q0 = os.path.join(a, p0)
+                        if os.path.isfile(q0) and len(old0) and os.path.getsize(q0) == len(old0) and os.stat(q0).st_mtime <= t_prev and open(q0, 'rb').read() != old0:
+                            ok = False
                     history.append({'t_prev': t_prev, 't_now': t_now, 'ops': [[o[0], o[1]] + ([o[3]] if len(o) > 3 else []) for o in ops], 'premise': ok})
                     # now and then a partial update (one sub-directory, no --timestamp) on both replicas in between: it scans
                     # only that directory, so it must leave the TIMESTAMP - and with it the next incremental run - alone
